@@ -23,11 +23,13 @@ pub struct Cfg {
     pub rules: RuleMode,
     pub sub_depth: usize,
     pub two_digests: bool,
+    /// delegated steps may have two functionaries who each file (the same) sub-layout
+    pub multi_sub: bool,
 }
 
 impl Cfg {
     pub fn basic() -> Cfg {
-        Cfg { min_steps: 0, max_steps: 3, min_owners: 1, max_owners: 3, cheap: true, max_threshold: 3, rules: RuleMode::Permissive, sub_depth: 0, two_digests: false }
+        Cfg { min_steps: 0, max_steps: 3, min_owners: 1, max_owners: 3, cheap: true, max_threshold: 3, rules: RuleMode::Permissive, sub_depth: 0, two_digests: false, multi_sub: false }
     }
 }
 
@@ -113,12 +115,16 @@ fn assemble(
         let auth: Vec<KeySpec> = p.authorized.iter().map(|a| funcs[*a].clone()).collect();
         let sub = subs.get(i).cloned().flatten();
         match sub {
-            Some((mut inner, _)) => {
-                // delegated step: one functionary, whose key owns the inner layout
-                let k = auth[0].clone();
-                inner.sigs = vec![SigEntry::good(&k)];
-                steps.push(StepSpec { name: name.clone(), threshold: if p.threshold == 0 { 0 } else { 1 }, pubkeys: auth.clone(), expected_command: p.command.clone(), expected_materials: rules.clone(), expected_products: rules.clone() });
-                links.push(LinkFile { step: name.clone(), filed_under: k, body: Body::Sub { world: Box::new(inner), placement: Placement::Proper } });
+            Some((inner, _)) => {
+                // delegated step: each delegating functionary's key owns (signs) its copy of the inner layout
+                let copies = if cfg.multi_sub && auth.len() >= 2 && p.n_links >= 2 { 2 } else { 1 };
+                let threshold = if copies == 2 { 2 } else if p.threshold == 0 { 0 } else { 1 };
+                steps.push(StepSpec { name: name.clone(), threshold, pubkeys: auth.clone(), expected_command: p.command.clone(), expected_materials: rules.clone(), expected_products: rules.clone() });
+                for k in auth.iter().take(copies) {
+                    let mut copy = inner.clone();
+                    copy.sigs = vec![SigEntry::good(k)];
+                    links.push(LinkFile { step: name.clone(), filed_under: k.clone(), body: Body::Sub { world: Box::new(copy), placement: Placement::Proper } });
+                }
             }
             None => {
                 steps.push(StepSpec { name: name.clone(), threshold: p.threshold, pubkeys: auth.clone(), expected_command: p.command.clone(), expected_materials: rules.clone(), expected_products: rules.clone() });
